@@ -249,9 +249,19 @@ package otto
 // ES5 9.2 ToBoolean.
 // ToString: number formatting lives in strconv (C06); only its frame is used here.
 //@ func (Value).string
-//@   trusted
+//@   props C15 C05
+//@   nosafety
+//@   requires jsValue(v)
 //@   pure_if v.kind != valueObject
 //@   throws v.kind == valueObject
+//@   ensures v.kind == valueString && is(v.value, string) ==> result == v.value.(string)
+//@   ensures v.kind == valueUndefined ==> result == "undefined"
+//@   ensures v.kind == valueNull ==> result == "null"
+//@   nocall strconv.FormatInt(_, _) when is(v.value, uint) || is(v.value, uint8) || is(v.value, uint16) || is(v.value, uint32) || is(v.value, uint64) || is(v.value, float64)
+//@   nocall strconv.FormatUint(_, _) when is(v.value, int) || is(v.value, int8) || is(v.value, int16) || is(v.value, int32) || is(v.value, int64) || is(v.value, float64)
+//@   at_call strconv.FormatInt : arg1 == 10 && (is(v.value, int) ==> arg0 == int64(v.value.(int))) && (is(v.value, int8) ==> arg0 == int64(v.value.(int8))) && (is(v.value, int16) ==> arg0 == int64(v.value.(int16))) && (is(v.value, int32) ==> arg0 == int64(v.value.(int32))) && (is(v.value, int64) ==> arg0 == v.value.(int64))
+//@   at_call strconv.FormatUint : arg1 == 10 && (is(v.value, uint) ==> arg0 == uint64(v.value.(uint))) && (is(v.value, uint8) ==> arg0 == uint64(v.value.(uint8))) && (is(v.value, uint16) ==> arg0 == uint64(v.value.(uint16))) && (is(v.value, uint32) ==> arg0 == uint64(v.value.(uint32))) && (is(v.value, uint64) ==> arg0 == v.value.(uint64))
+//@   at_call floatToString : is(v.value, float64) && sameFloat(arg0, v.value.(float64)) && arg1 == 64
 
 //@ func (Value).bool
 //@   props C05 C15
@@ -822,7 +832,7 @@ package otto
 // RangeError, panic of a host function or of an interrupt handler - the scope stack of
 // every runtime is exactly what it was before the call, and no existing frame was relinked.
 //@ func (*object).call
-//@   props C18
+//@   props C18 C02
 //@   requires o != nil && o.runtime != nil
 //@   requires forall x *object :: x != nil ==> fnOK(x)
 //@   dyn_preserves runtime.scope, scope.outer
@@ -870,7 +880,7 @@ package otto
 //@   props C19
 //@   nosafety
 //@   requires rt != nil && rt.scope != nil && node != nil
-//@   at_call (Value).construct : rt.scope.frame.offset == calleeOffset(node.callee)
+//@   at_call (*object).construct : rt.scope.frame.offset == calleeOffset(node.callee)
 
 // ---------------------------------------------------------------------------
 // evaluate.go: binary operators on resolved primitive operands (C05, C19)
@@ -986,7 +996,7 @@ package otto
 
 // A value is copied unchanged unless it is an object reference, which goes through the memo.
 //@ func (*cloner).value
-//@   props C17
+//@   props C17 C20
 //@   requires heapClassOK(c) && valOKC(in)
 //@   preserves @cloneFrame
 //@   ensures memoGrows(c)
@@ -996,7 +1006,7 @@ package otto
 // Argument lists (bound functions): a fresh array of the same length, element by element
 // the copy of the original's element.
 //@ func (*cloner).valueArray
-//@   props C17
+//@   props C17 C20
 //@   requires heapClassOK(c) && (forall i int :: 0 <= i && i < len(in) ==> valOKC(in[i]))
 //@   preserves @cloneFrame
 //@   stable in
@@ -1009,7 +1019,7 @@ package otto
 
 // A declarative binding: flags copied, the value through the cloner.
 //@ func (*cloner).dclProperty
-//@   props C17
+//@   props C17 C20
 //@   requires heapClassOK(c) && valOKC(in.value)
 //@   preserves @cloneFrame
 //@   ensures memoGrows(c)
@@ -1064,7 +1074,7 @@ package otto
 
 // The arguments object payload: a fresh name table, the environment through the cloner.
 //@ func (argumentsObject).clone
-//@   props C17
+//@   props C17 C20
 //@   requires heapClassOK(c)
 //@   preserves @cloneFrame
 //@   ensures memoGrows(c)
@@ -1592,26 +1602,8 @@ package otto
 //@   calls dateObjectOf(_, _) as d
 //@   ensures d.isNaN ==> nanValue(result)
 
-//@ func builtinDateToString
-//@   props C12
-//@   nosafety
-//@   requires call.runtime != nil
-//@   calls dateObjectOf(_, _) as d
-//@   ensures d.isNaN ==> result.kind == valueString && is(result.value, string) && result.value.(string) == "Invalid Date"
 
-//@ func builtinDateToDateString
-//@   props C12
-//@   nosafety
-//@   requires call.runtime != nil
-//@   calls dateObjectOf(_, _) as d
-//@   ensures d.isNaN ==> result.kind == valueString && is(result.value, string) && result.value.(string) == "Invalid Date"
 
-//@ func builtinDateToTimeString
-//@   props C12
-//@   nosafety
-//@   requires call.runtime != nil
-//@   calls dateObjectOf(_, _) as d
-//@   ensures d.isNaN ==> result.kind == valueString && is(result.value, string) && result.value.(string) == "Invalid Date"
 
 //@ func builtinDateToUTCString
 //@   props C12
@@ -2286,7 +2278,11 @@ package otto
 // portion of the subject BEFORE the match (from its start), $' the portion after the match.
 //@ func builtinStringFindAndReplaceString$1
 //@   props C10
-//@   nosafety
+//@   safety C02 C10
+//@   requires match != nil && target != nil && matchCount != nil && len(*match) >= 2 && *matchCount == len(*match) / 2 && len(part) >= 2
+//@   requires forall i int :: 0 <= i && i < len(*match) ==> -1 <= (*match)[i] && (*match)[i] <= len(*target)
+//@   requires forall j int :: 0 <= j && 2*j+1 < len(*match) ==> (*match)[2*j] <= (*match)[2*j+1] && ((*match)[2*j] == -1 ==> (*match)[2*j+1] == -1)
+//@   requires (*match)[0] >= 0 && part[1] != '-'
 //@   ensures len(part) > 1 && part[1] == '$' ==> len(result) == 1 && result[0] == '$'
 //@   ensures len(part) > 1 && part[1] == '&' ==> len(result) == (*match)[1] - (*match)[0]
 //@   ensures len(part) > 1 && part[1] == '`' ==> len(result) == (*match)[0]
@@ -2396,3 +2392,48 @@ package otto
 //@   nosafety
 //@   requires wfCall(call) && argsOK(call.ArgumentList)
 //@   at_call (*object).enumerate : arg1
+
+// The error object a script sees for an interpreter-raised error (15.11.7): its prototype
+// is the prototype object of the NativeError named by the error, Error.prototype otherwise,
+// so that instanceof and the inherited name agree with the class the interpreter raised.
+//@ func (*runtime).newErrorObjectError
+//@   props C19
+//@   nosafety
+//@   requires rt != nil
+//@   at_call (*runtime).newNativeFunction : err.name == "EvalError" ==> obj.prototype == rt.global.EvalErrorPrototype
+//@   at_call (*runtime).newNativeFunction : err.name == "TypeError" ==> obj.prototype == rt.global.TypeErrorPrototype
+//@   at_call (*runtime).newNativeFunction : err.name == "RangeError" ==> obj.prototype == rt.global.RangeErrorPrototype
+//@   at_call (*runtime).newNativeFunction : err.name == "ReferenceError" ==> obj.prototype == rt.global.ReferenceErrorPrototype
+//@   at_call (*runtime).newNativeFunction : err.name == "SyntaxError" ==> obj.prototype == rt.global.SyntaxErrorPrototype
+//@   at_call (*runtime).newNativeFunction : err.name == "URIError" ==> obj.prototype == rt.global.URIErrorPrototype
+//@   at_call (*runtime).newNativeFunction : err.name == "Error" ==> obj.prototype == rt.global.ErrorPrototype
+
+// A json tag names the field by its part before the first comma ("count,omitempty").
+//@ func fieldIndexByName
+//@   props C16
+//@   nosafety
+//@   at_call strings.SplitN : arg1 == "," && arg2 == 2
+
+// Date.prototype.toString / toDateString / toTimeString are bound to the date-and-time, the
+// date and the time rendering (15.9.5.2-4): each formats with the layout of its own name.
+//@ func builtinDateToString
+//@   props C12 C14
+//@   nosafety
+//@   requires call.runtime != nil
+//@   calls dateObjectOf(_, _) as d
+//@   ensures d.isNaN ==> result.kind == valueString && is(result.value, string) && result.value.(string) == "Invalid Date"
+//@   at_call time.(time.Time).Format : arg1 == builtinDateDateTimeLayout
+//@ func builtinDateToDateString
+//@   props C12 C14
+//@   nosafety
+//@   requires call.runtime != nil
+//@   calls dateObjectOf(_, _) as d
+//@   ensures d.isNaN ==> result.kind == valueString && is(result.value, string) && result.value.(string) == "Invalid Date"
+//@   at_call time.(time.Time).Format : arg1 == builtinDateDateLayout
+//@ func builtinDateToTimeString
+//@   props C12 C14
+//@   nosafety
+//@   requires call.runtime != nil
+//@   calls dateObjectOf(_, _) as d
+//@   ensures d.isNaN ==> result.kind == valueString && is(result.value, string) && result.value.(string) == "Invalid Date"
+//@   at_call time.(time.Time).Format : arg1 == builtinDateTimeLayout
